@@ -350,11 +350,27 @@ def teardown_harness(cls_name: str):
         I.ex.stubs[("db", "complete_scan_run")] = lambda I2, r, a, k: coro(lambda: NONE)
         obj.fields["artifacts_dir"] = NONE
         I.ex.stub_attrs[("ecu", "db_handler")] = lambda I2, o: NONE
+        failed: dict[str, Any] = {}
+
+        def close(I2: Interp, r: V, a: list[V], k: dict[str, V]) -> V:
+            def go() -> V:
+                # closing a transport whose peer is gone may fail with a connection error - one
+                # of the "expected" exceptions entry_point maps to exit code 74
+                if I2.choose([z3.BoolVal(True)] * 2) == 1:
+                    failed["exc"] = VObj(ConnectionResetError, {"args": VTuple([])})
+                    raise PyExc(failed["exc"])
+                return NONE
+            return coro(go)
+        I.ex.stubs[("transport", "close")] = close
         try:
             I.await_v(I.call_v(I.getattr_v(obj, "teardown"), [], {}))
         except PyExc as e:
+            if e.exc is failed.get("exc"):
+                return  # propagates to run() -> entry_point: exit code 74, recorded everywhere
             I.fail("F-teardown-does-not-raise-on-its-own", e.exc.cls.__name__)
             return
+        I.prove("F-a-connection-error-while-closing-the-transport-is-not-swallowed(exit-code-74)",
+                z3.BoolVal("exc" not in failed))
         I.prove("F-run-body-does-not-disconnect-the-db-handler",
                 z3.BoolVal(I.ghost["db_disconnects"] == 0))
     return harness
@@ -497,6 +513,35 @@ def init_harness(I: Interp) -> None:
             z3.BoolVal(la is not None and la is not lb))
     for attr in ("_lock_file_fd", "db_handler", "artifacts_dir"):
         I.prove(f"N-{attr}-starts-unset-per-instance", z3.BoolVal(a_.fields.get(attr) is NONE))
+
+
+def native_teardown_close() -> tuple[bool, str]:
+    """Scanner.teardown with a transport whose close() fails with a connection error"""
+    import asyncio
+    import logging
+    logging.disable(logging.CRITICAL)
+    B = base_module()
+
+    class T:
+        async def close(self) -> None:
+            raise ConnectionResetError("peer is gone")
+
+    class S(B.Scanner):  # type: ignore[misc]
+        def __init__(self) -> None:
+            self.transport = T()  # type: ignore[assignment]
+            self.dumpcap = None
+            self.power_supply = None
+
+        async def main(self) -> None:
+            pass
+    try:
+        asyncio.run(B.Scanner.teardown(S()))
+    except ConnectionError:
+        return False, "the connection error of transport.close() leaves teardown (exit code 74)"
+    except Exception as e:  # noqa: BLE001
+        return False, f"teardown raised {type(e).__name__}"
+    return True, ("transport.close() failed with ConnectionResetError after main() succeeded and "
+                  "teardown returned normally: the run ends with exit code 0 instead of 74")
 
 
 def native_stored_config() -> tuple[bool, str]:
@@ -662,6 +707,8 @@ def native_replay(unit: str, obligation: str, model: dict) -> tuple[bool, str]:
         obs = native_run("return", True, False)
         shutil.rmtree(obs["tmp"], ignore_errors=True)
         return "raised" in obs, f"entry_point with a failing pre/post hook: {obs}"
+    if obligation.startswith("F-a-connection-error-while-closing"):
+        return native_teardown_close()
     if obligation.startswith("F-run-body"):
         src = __import__("inspect").getsource(base_module().Scanner.teardown)
         return "db_handler.disconnect" in src, ("Scanner.teardown disconnects self.db_handler, "
